@@ -394,7 +394,9 @@ class Module(metaclass=ModuleMeta):
         if in_project is None:
             in_project = self.parent is not None
         yield b"SFFF", pack("<I", self.flags)
-        yield b"SNAM", self.name.encode(ENCODING)[:32].ljust(32, b"\0")
+        # Truncate to 32 bytes without cutting a multi-byte character in half.
+        name = self.name.encode(ENCODING)[:32].decode(ENCODING, "ignore")
+        yield b"SNAM", name.encode(ENCODING).ljust(32, b"\0")
         if self.mtype is not None and self.mtype != "Output":
             yield b"STYP", self.mtype.encode(ENCODING) + b"\0"
         yield b"SFIN", pack("<i", self.mod_finetune)
